@@ -21,7 +21,7 @@ import (
 // REAL node and calls the real method:
 //
 //	FSM update time   now-1s, now-2h
-//	appended-at time  never, now-1.1s, now-3s, now-5h, now+1h... (see c16wAppend)
+//	appended-at time  never, now-1.1s, now-3s, now-5h, now-90min
 //	FSM index         5, 7, 9        received-command index  5, 7, 9
 //	freshness         0, 500 ms, 1 h        strict  off, on
 //
@@ -158,5 +158,5 @@ func (x *c16lRun) jobW() {
 		return x.since(others[0]) > time.Duration(c16lSmall)*3/2 && x.since(others[1]) > time.Duration(c16lSmall)*3/2
 	})
 	x.wiringGrid(x.r, "cut-off-longer-than-small-bound", names, others)
-	c.net.Heal()
+	// no heal: the cluster is thrown away as it is (see vxClose)
 }
